@@ -1,4 +1,5 @@
 import RustCcModel.Proofs.FlagsStep
+import RustCcModel.Proofs.InvReach
 /-! # C07 — panics from user callbacks are contained at every crash point
 
 The invariant "the flags are the stack" (`FlagsOk`) is preserved by *every* micro-step of the machine,
@@ -45,5 +46,27 @@ theorem unwind_through_script (c : Cfg) (w : World) (ops : List Op) (self wc : O
 /-- Non-vacuity: the initial world is reachable and idle. -/
 example (c : Cfg) : Reachable c 6 4 4 (World.init c 6 4 4) ∧ (World.init c 6 4 4).stack = [] :=
   ⟨.init, rfl⟩
+
+/-- **Whatever panicked, the marks are clean once the machine is idle again**: in every reachable world with an empty stack
+— after any history of caught panics at any callback — every object is either not marked, or marked "possible cycle" and then
+it is in the buffer exactly once with its tracing counter reset; no object is left marked as member of a collector list or
+queue (which would make every later `Cc::drop` on it take the collector's "only decrement" path), the buffer has no
+duplicates, and a released box carries no mark and no count. This is the state the next collection — and every `Cc::drop`
+before it — interprets. -/
+theorem idle_marks_clean (c : Cfg) (nH nW nK : Nat) (w : World) (h : Reachable c nH nW nK w) (hs : w.stack = []) :
+    w.pc.Nodup ∧ ∀ x,
+      ((w.heap x).mark = .non ∨ ((w.heap x).mark = .pc ∧ x ∈ w.pc ∧ (w.heap x).tc = 0)) ∧
+      ((w.heap x).boxLive = false → (w.heap x).rc = 0 ∧ (w.heap x).mark = .non) := by
+  have hi := (reachable_all c nH nW nK w h).inv.oi
+  refine ⟨hi.pcNodup, fun x => ⟨?_, fun hb => hi.dead x hb⟩⟩
+  cases hm : (w.heap x).mark with
+  | non => exact Or.inl rfl
+  | pc =>
+    have hx : x ∈ w.pc := (hi.mPc x).1 hm
+    exact Or.inr ⟨rfl, hx, hi.tc0 x hx⟩
+  | inList =>
+    have := (hi.mList x).1 hm
+    rw [hs] at this; simp [listed] at this
+  | inQueue => exact absurd hm (hi.noQueue x)
 
 end RustCc.C07
